@@ -509,6 +509,7 @@ func (m *c16Machine) build(hold func()) (ops []*vkit.Op, validate func()) {
 		primary := m.ctxOf(c.primary)
 		pv := run("CombineContext", func() {
 			c.res = bigbuff.CombineContext(primary, others...)
+			c16sScribble(others) // the argument slice is the caller's again
 			if c.res != nil {
 				c.errOnRet = c.res.Err()
 			}
@@ -536,6 +537,7 @@ func (m *c16Machine) build(hold func()) (ops []*vkit.Op, validate func()) {
 		}
 		pv := run("ConflatedContext", func() {
 			c.res, c.cancel = bigbuff.ConflatedContext(args...)
+			c16sScribble(args)
 			if c.res != nil {
 				c.errOnRet = c.res.Err()
 			}
